@@ -151,7 +151,7 @@ def sources(ctx):
             continue
         if (b.get("impl_self") == "helpers::errors::AxError") or k.startswith("helpers::syscalls::"):
             roots.append(k)
-    cone = C18.cone_of(facts, roots)
+    cone = C18.cone_of(facts, roots, fmt_edges=True)
     ck.cov["observable_cone_bodies"] = len(cone)
     for k, site in sorted(map_iters.items()):
         b = facts.bodies[k]
